@@ -42,14 +42,12 @@ fn next_half(
 ) -> usize {
 	let half = slice.len() / 2;
 
-	// It's not a mistake. We really need a bit-to-bit comparison of float values here
-	// Also it is not a good idea to use `match value.partial_cmp(slice[half]): it is slower.
-	if value.to_bits() == get(slice, half).to_bits() {
-		padding + half
-	} else if &value > get(slice, half) {
-		f(value, get(slice, (half + 1)..), padding + half + 1)
-	} else {
-		f(value, get(slice, ..half), padding)
+	// The sorted slice is kept in IEEE total order (`-0.0` before `+0.0`), so that an element is
+	// always found by its bit pattern, even when both zeros are present in the window.
+	match value.total_cmp(get(slice, half)) {
+		Ordering::Equal => padding + half,
+		Ordering::Greater => f(value, get(slice, (half + 1)..), padding + half + 1),
+		Ordering::Less => f(value, get(slice, ..half), padding),
 	}
 }
 
@@ -256,10 +254,10 @@ impl<'de> Deserialize<'de> for SMM {
 		let mut sort_error = false;
 
 		slice.sort_unstable_by(|a, b| {
-			a.partial_cmp(b).unwrap_or_else(|| {
+			if a.is_nan() || b.is_nan() {
 				sort_error = true;
-				Ordering::Equal
-			})
+			}
+			a.total_cmp(b)
 		});
 
 		if sort_error {
